@@ -25,6 +25,27 @@ CHECKS = {
              "non-singular matrices; lineage/tracklet flags of validate_data are oracle-only here (modelled in C13/C14).",
         technique="Coq proof (iff by induction, NoDup/count lemmas) + vm_compute correspondence",
         design="6/C12"),
+    "C13": dict(
+        text="Coq theorems over Tracks.v for all edge lists and labellings (no size bound; unique node ids, edges between listed "
+             "nodes): validate_tracklets reports no invalid tracklet iff (L) adjacent nodes share an id exactly when their edge is the "
+             "only edge leaving its source and the only edge entering its target and (C) every tracklet is weakly connected, i.e. the "
+             "classes are the maximal unbranched paths; per-class soundness/completeness; the ids named in the messages are exactly "
+             "the invalid tracklets. Weak connectivity via Reach.v (fuelled closure proved sound and complete). Tie: verdict and named "
+             "ids of validate_tracklets (and validate_data(tracklet=True)) compared with the model in Coq on all DAGs<=4 nodes x "
+             "labellings (exhaustive block) plus random larger DAGs.",
+        note="Trusted: Coq kernel+VM, harness; networkx DiGraph/subgraph/degree/is_weakly_connected modelled by meaning; the code's "
+             "cycle test is not modelled (property quantifies over acyclic graphs; generators emit DAGs only).",
+        technique="Coq proof (iff via local edge condition + reachability soundness/completeness) + vm_compute correspondence",
+        design="6/C13"),
+    "C14": dict(
+        text="Coq theorems over Tracks.v for all digraphs (cycles allowed, edges may mention absent ids) and labellings with unique "
+             "node ids: validate_lineages reports no invalid lineage iff nodes share a lineage id exactly when weakly connected and no "
+             "listed node is connected to an id outside the node list; per-lineage component test spec; names theorem; reachability "
+             "soundness and completeness. Tie: verdict and named ids compared with the model in Coq on all digraphs<=3 nodes "
+             "(<=4 in thorough) x labellings, absent-id variants, random 5-7 node graphs.",
+        note="Trusted: Coq kernel+VM, harness; networkx weakly_connected_components modelled by undirected reachability.",
+        technique="Coq proof (component characterisation by reachability, induction) + vm_compute correspondence",
+        design="6/C14"),
 }
 
 NOT_YET = {
